@@ -1,3 +1,122 @@
--- stub: replaced by the property author
+import SupervisorModel.Lemmas.SupLemmas
+/-
+  C06 — the main loop survives anything its children, listeners or the kernel do.
+
+  The only exceptions the process/daemon logic itself can raise are the AssertionErrors of
+  `_assertInState`; everything else the loop does with a process is total.  The theorems show that
+  no operation the main loop or an API request performs on a process can trip such an assertion,
+  for any process state the daemon can be in (the bookkeeping invariant `Inv`, preserved by every
+  history: `state_pid_agree` in C02), any configuration, clock reading, daemon mood and
+  environment answer (spawn failures of every kind, signal-delivery failures, any exit status).
+  Robustness of the dispatcher parsers against arbitrary bytes is C07/C08/C10.
+-/
+set_option linter.unusedSimpArgs false
+set_option linter.unusedVariables false
 namespace Sv.Props.C06
+open Sv Sv.Proc Sv.Gen.Proc Sv.Sup Sv.Gen.Sup
+
+/-- a pass over a process never raises -/
+theorem no_assertion_in_transition (cfg : Cfg) (p : Proc) (now mood : Int) (res : SpawnRes) (kr : KillRes) (hi : Inv p) :
+    (transition cfg now mood res kr { p := p }).err = none := transition_ok [] cfg p now mood res kr hi
+
+/-- reaping never raises: whatever state the owner of the pid is in — STARTING, RUNNING, STOPPING or
+    UNKNOWN after a failed signal delivery (fix F9) — whatever the exit status and the clock -/
+theorem no_assertion_in_reap (cfg : Cfg) (p : Proc) (now es : Int) (busy : Bool) (hi : Inv p) (hp : p.pid ≠ 0)
+    (hw : 0 ≤ cfg.startsecs) : (finish cfg now es busy { p := p }).err = none := finish_ok [] cfg p now es busy hi hp hw
+
+/-- `stop_all` never raises, in any state -/
+theorem no_assertion_in_group_stop (cfg : Cfg) (p : Proc) (now : Int) (kr : KillRes) :
+    (groupStop cfg now kr { p := p }).err = none := groupStop_ok [] cfg now kr p
+
+/-- stop and signal requests never raise, in any state and for any delivery result -/
+theorem no_assertion_in_stop_signal (cfg : Cfg) (p : Proc) (now mood sig : Int) (kr : KillRes) :
+    (rpcStop cfg now mood kr { p := p }).err = none ∧ (rpcSignal cfg now mood sig kr { p := p }).err = none :=
+  ⟨rpcStop_ok [] cfg now mood kr p, rpcSignal_ok [] cfg now mood sig kr p⟩
+
+/-- a start request never raises -/
+theorem no_assertion_in_start (cfg : Cfg) (p : Proc) (now mood : Int) (res : SpawnRes) (hw : wfSpawn res) (hi : Inv p) :
+    (rpcStart cfg now mood res { p := p }).err = none := by
+  have hemit : ∀ (o : Out) (s : S), (emit o s).err = s.err := by
+    intro o s; obtain ⟨q, os, err⟩ := s; cases err <;> simp [emit, guard]
+  simp only [rpcStart, guard, Option.isSome_none, Bool.false_eq_true, if_false, answer]
+  split
+  · rw [hemit]
+  · split
+    · rw [hemit]
+    · rename_i href
+      have hst : p.state = .exited ∨ p.state = .stopped ∨ p.state = .backoff ∨ p.state = .fatal := by
+        simp only [startRefusal] at href
+        cases hs : p.state <;> simp_all [runningStates] <;> (split at href <;> simp_all)
+      have hsp := spawn_ok [] cfg now res p hst
+      (try dsimp only)
+      split
+      · rw [hemit]; exact hsp
+      · rw [hemit]
+        have hinv := spawn_inv cfg now res { p := p } hw hi
+        generalize hr : spawn cfg now res { p := p } = r at *
+        obtain ⟨q, os, err⟩ := r
+        simp only at hsp; subst hsp
+        exact transition_ok os cfg q now mood res .ok hinv
+
+/-- **Every operation of the loop and of the API is total on reachable process states.** -/
+theorem no_assertion_in_pass_ops (cfg : Cfg) (p : Proc) (op : Op) (hw : wfOp op) (hi : Inv p)
+    (hreap : ∀ now es busy, op = .reap now es busy → p.pid ≠ 0 ∧ 0 ≤ cfg.startsecs) :
+    (stepP cfg p op).err = none := by
+  cases op <;> simp only [stepP, step]
+  · exact transition_ok [] _ _ _ _ _ _ hi
+  · rename_i now es busy
+    obtain ⟨h1, h2⟩ := hreap now es busy rfl
+    exact finish_ok [] _ _ _ _ _ hi h1 h2
+  · exact no_assertion_in_start _ _ _ _ _ hw hi
+  · exact rpcStop_ok [] _ _ _ _ _
+  · exact rpcSignal_ok [] _ _ _ _ _ _
+  · exact groupStop_ok [] _ _ _ _
+  · -- stop_report: rollback and a timestamp
+    simp only [stopReport, guard, Option.isSome_none, Bool.false_eq_true, if_false]
+    split <;> simp [setP, guard]
+
+/-- a history in which `waitpid` only returns pids of processes that hold a child -/
+def reapsOwned (cfg : Cfg) : Proc → List Op → Prop
+  | _, [] => True
+  | p, op :: ops =>
+    (∀ now es busy, op = .reap now es busy → p.pid ≠ 0) ∧ wfOp op ∧ reapsOwned cfg (stepP cfg p op).p ops
+
+/-- **No history makes an operation raise**: from the initial state, for every sequence of operations
+    with well-formed environment answers in which reaps are for held children, not a single
+    operation ends with an exception -/
+theorem history_no_exception (cfg : Cfg) (ops : List Op) (h : Hist) (hw : 0 ≤ cfg.startsecs) (hi : Inv h.p)
+    (hr : reapsOwned cfg h.p ops) : (run cfg h ops).errs = h.errs := by
+  induction ops generalizing h with
+  | nil => rfl
+  | cons op ops ih =>
+    obtain ⟨h1, h2, h3⟩ := hr
+    simp only [run]
+    have hok := no_assertion_in_pass_ops cfg h.p op h2 hi (fun now es busy he => ⟨h1 now es busy he, hw⟩)
+    rw [ih _ (step_inv cfg h.p op h2 hi) h3]
+    simp [hok]
+
+/-- an exception inside an API request is contained by the per-dispatcher guard of the loop:
+    `rpcGuarded` never leaves the daemon in the failed state -/
+theorem rpc_errors_contained (r : Rpc) (s : Sup) (he : s.err = none) : (rpcGuarded r s).err ≠ some .assertion := by
+  simp only [rpcGuarded, sguard, he, Option.isSome_none, Bool.false_eq_true, Bool.false_or]
+  split
+  · simp [he]
+  · split <;> simp_all
+
+-- non-vacuity: a history with a failed delivery (UNKNOWN) followed by the reap that used to kill the daemon
+def cfgX : Cfg where
+  startsecs := 1024
+  startretries := 3
+  autostart := true
+  autorestart := .unexpected
+  exitcodes := [0]
+  stopsignal := 15
+  stopwaitsecs := 10240
+  stopasgroup := false
+  killasgroup := false
+example : (run cfgX { p := {} } [.transition 1024000 1 (.ok 7) .ok, .transition 1026000 1 (.ok 8) .ok, .rpcStop 1030200 1 .fail,
+    .reap 1030300 0 false]).errs = 0 ∧
+  (run cfgX { p := {} } [.transition 1024000 1 (.ok 7) .ok, .transition 1026000 1 (.ok 8) .ok, .rpcStop 1030200 1 .fail,
+    .reap 1030300 0 false]).p.state = .unknown := by decide +kernel
+
 end Sv.Props.C06
